@@ -19,18 +19,20 @@ Windows ==
   (IF W_OverlapForeign THEN {"W_OverlapForeign"} ELSE {}) \cup
   (IF W_OverlapSame THEN {"W_OverlapSame"} ELSE {}) \cup
   (IF W_WriteDuringRead THEN {"W_WriteDuringRead"} ELSE {}) \cup
-  (IF W_RejectDuringRouting THEN {"W_RejectDuringRouting"} ELSE {})
+  (IF W_RejectDuringRouting THEN {"W_RejectDuringRouting"} ELSE {}) \cup
+  (IF W_UpdateDuringRouting THEN {"W_UpdateDuringRouting"} ELSE {}) \cup
+  (IF W_RouteAfterUpdate THEN {"W_RouteAfterUpdate"} ELSE {})
 
 Log(e) == hist' = Append(hist, e) /\ win' = win \cup Windows' /\ UNCHANGED finished
 
 GenInit == Init /\ hist = <<>> /\ win = {} /\ finished = FALSE
 
 AllowedTable ==
-  {[sh |-> m, kind |-> k, nodes |-> Allowed(strategy, m, k)] : m \in Shards, k \in Kinds}
+  {[st |-> st, sh |-> m, kind |-> k, nodes |-> Allowed(st, m, k)] : st \in Strategies, m \in Shards, k \in Kinds}
 
 Finish ==
   /\ ~finished /\ Done
-  /\ PrintT("@@BEH " \o ToJson([strategy |-> strategy, nrep |-> NRep, shards |-> Shards, hist |-> hist,
+  /\ PrintT("@@BEH " \o ToJson([strategy |-> strategy0, nrep |-> NRep, shards |-> Shards, hist |-> hist,
                                 windows |-> win, allowed |-> AllowedTable,
                                 dests |-> {[s |-> s, d |-> dest[s]] : s \in Sessions}]))
   /\ finished' = TRUE
@@ -45,6 +47,8 @@ GenNext ==
           \/ Lookup(s) /\ Log([a |-> "lookup", s |-> s, dest |-> dest'[s]])
           \/ Store(s) /\ Log([a |-> "store", s |-> s, at |-> n'[s]])
           \/ \E i \in 1..MaxC : Pick(s, i) /\ Log([a |-> "pick", s |-> s, i |-> i, dest |-> dest'[s]])
+     \/ \E st \in Strategies :
+          ConfigUpdate(st) /\ Log([a |-> "config", to |-> st, inflight |-> {s \in Sessions : pc[s] # "idle"}])
      \/ Finish
 
 \* mandatory stratum (ACTION_CONSTRAINT of the Strata_* configurations): every session routes a read-only
@@ -53,6 +57,9 @@ ForeignReadsOnly ==
   \A s, t \in Sessions :
      /\ req'[s].kind \in {"-", "read"}
      /\ (s # t /\ req'[s].sh # "-") => req'[s].sh # req'[t].sh
+
+\* stratum for run-time strategy changes: read-only commands only
+ReadsOnly == \A s \in Sessions : req'[s].kind \in {"-", "read"}
 
 GenSpec == GenInit /\ [][GenNext]_gvars
 =============================================================================
